@@ -43,10 +43,25 @@ func (zeroReader) Read(p []byte) (int, error) {
 
 type capLogger struct{}
 
-func (capLogger) Debug(f string, a ...interface{}) { vx.CaptureLog("debug", f, a) }
-func (capLogger) Info(f string, a ...interface{})  { vx.CaptureLog("info", f, a) }
-func (capLogger) Warn(f string, a ...interface{})  { vx.CaptureLog("warn", f, a) }
-func (capLogger) Error(f string, a ...interface{}) { vx.CaptureLog("error", f, a) }
+// Like a real logger the capturing logger formats the record when it is handed over (the String methods of the
+// arguments run then, in the caller's goroutine, with whatever locks the caller still holds or no longer holds);
+// format and arguments are kept as well.
+func (capLogger) Debug(f string, a ...interface{}) {
+	_ = fmt.Sprintf(f, a...)
+	vx.CaptureLog("debug", f, a)
+}
+func (capLogger) Info(f string, a ...interface{}) {
+	_ = fmt.Sprintf(f, a...)
+	vx.CaptureLog("info", f, a)
+}
+func (capLogger) Warn(f string, a ...interface{}) {
+	_ = fmt.Sprintf(f, a...)
+	vx.CaptureLog("warn", f, a)
+}
+func (capLogger) Error(f string, a ...interface{}) {
+	_ = fmt.Sprintf(f, a...)
+	vx.CaptureLog("error", f, a)
+}
 
 func init() {
 	proxy.RegisterDialerType("verif", func(u *url.URL, fwd proxy.Dialer) (proxy.Dialer, error) {
